@@ -278,6 +278,20 @@ theorem emit_parse_roundtrip_result (j : OutMsg) (hm : j.m = []) (hid : j.id ≠
       { v := version, id := j.id, m := [], p := [], hasE := false, r := j.r, extra := false, errs := [] } :=
   parse_emitted_result j hm hid hr (partB_spec _ pid) hvid (partB_spec _ pr)
 
+/-- **a relabelled response** (`Response.SetID` followed by `MarshalJSON`, as a proxy such as
+`jhttp.Bridge` does - any number of times): the encoding is computed from the current id, so it
+parses back to exactly the id that was set last and to the unchanged result -/
+theorem relabelled_response_roundtrip (j : OutMsg) (x : Bytes) (hm : j.m = []) (hx : x ≠ []) (hr : j.r ≠ [])
+    (px : partB x = true) (hvx : isValidID x = true) (pr : partB j.r = true) :
+    parseMember (memberView (toJSON { j with id := x })) =
+      { v := version, id := x, m := [], p := [], hasE := false, r := j.r, extra := false, errs := [] } :=
+  emit_parse_roundtrip_result { j with id := x } hm hx hr px hvx pr
+
+/-- relabelling twice is relabelling once with the last id: nothing of an earlier id (or of an
+earlier encoding) survives -/
+theorem relabel_last_wins (j : OutMsg) (x y : Bytes) :
+    toJSON { ({ j with id := x } : OutMsg) with id := y } = toJSON { j with id := y } := rfl
+
 /-- **emit / parse round trip for error responses**: `{"jsonrpc":"2.0","id":…,"error":{"code":c,
 "message":…,"data":…}}` with any message text, a code text that is an int32 literal and optional
 data: the error object is split into exactly its members, the decoder accepts it (`errorValueOK`)
